@@ -89,6 +89,10 @@ func listenEngine(args []string) error {
 		if !anyBusy && cancelKind == "none" {
 			cancelKind = "ready"
 		}
+		if cancelKind == "ready" && r.coin(50) {
+			cancelKind = "ready+clients" // clients hold TCP connections (idle, or in the middle of a query) when serving stops
+		}
+		var clientConns []net.Conn
 		p := proxy.Proxy{Addrs: addrs, Upstream: &fakeUp{script: map[string]*behaviour{}}, MaxInflightRequests: 8, Timeout: time.Second}
 		ctx, cancel := context.WithCancel(context.Background())
 		done := make(chan error, 1)
@@ -106,6 +110,23 @@ func listenEngine(args []string) error {
 		case "ready":
 			time.Sleep(40 * time.Millisecond)
 			cancel()
+		case "ready+clients":
+			time.Sleep(40 * time.Millisecond)
+			for _, a := range las {
+				for k := r.rng(1, 2); k > 0; k-- {
+					if cn, err := net.DialTimeout("tcp", net.JoinHostPort(a.host, itoa(a.port)), 200*time.Millisecond); err == nil {
+						switch r.intn(3) {
+						case 1:
+							cn.Write([]byte{0}) // half a length prefix
+						case 2:
+							cn.Write([]byte{0, 40, 1, 2, 1, 0}) // a length prefix and part of the message
+						}
+						clientConns = append(clientConns, cn)
+					}
+				}
+			}
+			time.Sleep(10 * time.Millisecond)
+			cancel()
 		case "random":
 			time.Sleep(time.Duration(r.intn(3000)) * time.Microsecond)
 			cancel()
@@ -122,6 +143,7 @@ func listenEngine(args []string) error {
 		for _, h := range holders {
 			h.Close()
 		}
+
 		// a restart must be able to bind every address at once
 		rebind := true
 		if returned {
@@ -142,6 +164,9 @@ func listenEngine(args []string) error {
 			}
 		} else {
 			rebind = false
+		}
+		for _, cn := range clientConns { // held until after the re-bind test
+			cn.Close()
 		}
 		class := 3
 		switch {
